@@ -67,7 +67,10 @@ __CPROVER_ensures(model_last_map < OLD(NPB(p))
                          !(model_g_map < OLD(NPB(p)) && BPEQ(PB(p)[model_g_map].first, FSN(p), FSL(p))))) /*@C08*/
 __CPROVER_ensures(model_last_map >= OLD(NPB(p)) || model_last_map == g_w) /*@C08*/
 __CPROVER_ensures(model_last_map >= OLD(NPB(p)) || g_s >= OLD(SITES(p, g_w)._n) || SITES(p, g_w)._d[g_s] == gs_val) /*@C08*/
-__CPROVER_ensures(g_o >= OLD(NPB(p)) || g_o == model_last_map || PB_O_SAME_AT(p, g_o)) /*@C08*/;
+__CPROVER_ensures(g_o >= OLD(NPB(p)) || g_o == model_last_map || PB_O_SAME_AT(p, g_o)) /*@C08*/
+/* reachability of the cases (each must FAIL) */
+__CPROVER_ensures(model_last_map < OLD(NPB(p))) /*@CANARY*/
+__CPROVER_ensures(model_last_map >= OLD(NPB(p))) /*@CANARY*/;
 
 /* ------------------------------------------------------------------ removeTopPotBreak(): exactly the top site removed from both */
 #define TOP_IS_SITE(p) (NC(p) >= 1 && OPC(p, NC(p) - 1) == OP_POTENTIAL_BREAK)
@@ -97,7 +100,12 @@ __CPROVER_ensures(!g_top_site || gw_n_old < 2 ||
 __CPROVER_ensures(!g_top_site || gw_n_old != 1 || NPB(p) == OLD(NPB(p)) - 1) /*@C08*/
 __CPROVER_ensures(!g_top_site || g_s >= gw_n_old || g_s + 1 >= gw_n_old || SITES(p, g_w)._d[g_s] == gs_val) /*@C08*/
 /* every other entry is kept (possibly moved into the hole of an erased entry) */
-__CPROVER_ensures(!g_top_site || g_o >= OLD(NPB(p)) || g_o == g_w || (g_o < NPB(p) && PB_O_SAME_AT(p, g_o)) || (g_w < NPB(p) && PB_O_SAME_AT(p, g_w))) /*@C08*/;
+__CPROVER_ensures(!g_top_site || g_o >= OLD(NPB(p)) || g_o == g_w || (g_o < NPB(p) && PB_O_SAME_AT(p, g_o)) || (g_w < NPB(p) && PB_O_SAME_AT(p, g_w))) /*@C08*/
+/* reachability of the cases (each must FAIL) */
+__CPROVER_ensures(g_top_site) /*@CANARY*/
+__CPROVER_ensures(!g_top_site) /*@CANARY*/
+__CPROVER_ensures(!g_top_site || gw_n_old != 1) /*@CANARY*/
+__CPROVER_ensures(!g_top_site || gw_n_old < 2) /*@CANARY*/;
 
 /* ------------------------------------------------------------------ advanceLine(): at most one site, never for the hidden file */
 #define ADV_SKIPS(p, l, f) ((f) == LIT___standards__ || (FSN(p) == (f) && FSL(p) == (l)))
@@ -122,7 +130,12 @@ __CPROVER_ensures(g_adv_skips || (model_last_map < OLD(NPB(p))
                          SITES(p, model_last_map)._n == OLD(SITES(p, g_w)._n) + 1 &&
                          SITES(p, model_last_map)._d[SITES(p, model_last_map)._n - 1] == (int)OLD(NC(p)))
                       : (NPB(p) == OLD(NPB(p)) + 1 && BPEQ(PB(p)[NPB(p) - 1].first, file_id, new_lineno) && SITES(p, NPB(p) - 1)._n == 1 &&
-                         SITES(p, NPB(p) - 1)._d[0] == (int)OLD(NC(p))))) /*@C07,C08*/;
+                         SITES(p, NPB(p) - 1)._d[0] == (int)OLD(NC(p))))) /*@C07,C08*/
+/* reachability of the cases (each must FAIL) */
+__CPROVER_ensures(g_adv_skips) /*@CANARY*/
+__CPROVER_ensures(!g_adv_skips) /*@CANARY*/
+__CPROVER_ensures(g_adv_skips || model_last_map < OLD(NPB(p))) /*@CANARY*/
+__CPROVER_ensures(g_adv_skips || model_last_map >= OLD(NPB(p))) /*@CANARY*/;
 
 #ifdef SPEC_CHECKS_OFF
 #pragma CPROVER check pop
